@@ -9,6 +9,9 @@ mod p06;
 mod p07;
 mod p08;
 mod p09;
+mod p10;
+mod p11;
+mod p15;
 mod p04;
 mod p05;
 mod p12;
@@ -80,6 +83,9 @@ fn main() {
         "C07" => p07::run(&cfg, &mut rng, &mut out),
         "C08" => p08::run(&cfg, &mut rng, &mut out),
         "C09" => p09::run(&cfg, &mut rng, &mut out),
+        "C10" => p10::run(&cfg, &mut rng, &mut out),
+        "C11" => p11::run(&cfg, &mut rng, &mut out),
+        "C15" => p15::run(&cfg, &mut rng, &mut out),
         "C04" => p04::run(&cfg, &mut rng, &mut out),
         "C05" => p05::run(&cfg, &mut rng, &mut out),
         "C12" => p12::run(&cfg, &mut rng, &mut out),
